@@ -1,7 +1,8 @@
 ----------------------------- MODULE MetaFilter -----------------------------
 (* T4 meta-filter (clematis.engine.stages.t4.t4_filter), the documented pipeline (C03):
-     combine duplicates per target (sum; provenance = smallest op index)
-     -> drop deltas whose originating op is blocked by a cooldown
+     drop every proposed delta whose originating op is blocked by a cooldown (C03: "none originating from an
+        operation still in cooldown" - also when another, live op proposes a delta for the same target)
+     -> combine duplicates per target (sum; provenance = smallest op index)
      -> clamp each magnitude to the novelty cap
      -> if the L2 norm exceeds the norm cap, scale all uniformly onto the cap
      -> keep the top-K by magnitude (ties to the smaller target key)
@@ -45,12 +46,13 @@ Pipeline(b, nov, cap, k, blk) ==
     LET deltas == [i \in 1..Len(b) |-> [tgt |-> ItemOf(b[i])[1], d |-> ItemOf(b[i])[2], op |-> ItemOf(b[i])[3]]]
         idx == 1..Len(b)
         targets == {deltas[i].tgt : i \in idx}
-        \* 0) combine duplicates: sum, provenance = smallest op index (0 = none)
-        sumd == [t \in targets |-> SumF([i \in idx |-> IF deltas[i].tgt = t THEN deltas[i].d ELSE 0], idx)]
-        opsof == [t \in targets |-> {deltas[i].op : i \in {j \in idx : deltas[j].tgt = t}} \ {0}]
-        minop == [t \in targets |-> IF opsof[t] = {} THEN 0 ELSE CHOOSE o \in opsof[t] : \A q \in opsof[t] : o <= q]
-        \* 1) cooldown
-        aftercd == {t \in targets : minop[t] = 0 \/ minop[t] \notin blk}
+        \* 1) cooldown: the block applies to the individual deltas
+        live == {i \in idx : deltas[i].op = 0 \/ deltas[i].op \notin blk}
+        aftercd == {deltas[i].tgt : i \in live}
+        \* 0) combine duplicates of what is left: sum, provenance = smallest op index (0 = none)
+        sumd == [t \in aftercd |-> SumF([i \in idx |-> IF i \in live /\ deltas[i].tgt = t THEN deltas[i].d ELSE 0], idx)]
+        opsof == [t \in aftercd |-> {deltas[i].op : i \in {j \in live : deltas[j].tgt = t}} \ {0}]
+        minop == [t \in aftercd |-> IF opsof[t] = {} THEN 0 ELSE CHOOSE o \in opsof[t] : \A q \in opsof[t] : o <= q]
         \* 2) novelty clamp
         clamped == [t \in aftercd |-> IF Abs(sumd[t]) > nov THEN (IF sumd[t] > 0 THEN nov ELSE -nov) ELSE sumd[t]]
         nclamped == Cardinality({t \in aftercd : Abs(sumd[t]) > nov})
